@@ -63,7 +63,7 @@ def run_shards(prop, specs, shard_timeout, workers=None):
                     hs = str((int(spec.get("seed", 0)) * 1000003 + i * 7919) % 4294967291)
                 # every second shard runs under `python -O` (assert statements stripped): what the code under test does
                 # inside an assert must not be something a property depends on
-                flags = ["-O"] if i % 2 == 1 and "replay" not in spec else \
+                flags = ["-O"] if spec.get("python_O", i % 2 == 1) and "replay" not in spec else \
                     (["-O"] if isinstance(spec.get("replay"), dict) and spec["replay"].get("python_O") else [])
                 p = subprocess.Popen([PYTHON, *flags, "-u", "-B", "-m", "vlib.worker", prop, spec_path, out_path],
                                      cwd=VERIF_DIR, env=dict(env, PYTHONHASHSEED=hs), stdout=errf,
